@@ -7,4 +7,5 @@ CONSTANTS
   PublishAtomic = TRUE
   UnrefIsValid = FALSE
   InitMayFail = FALSE
+  IsValidSync = FALSE
 INVARIANTS NoRaceButInited Mutex OnceOnly InitComplete RefBalance UseValid Distinct
